@@ -1,6 +1,6 @@
 (* Command dispatcher of engine C02: document model (OpStr.v) + text path (Multiline.v). *)
 From Coq Require Import List String.
-From AC Require Import Base.Strs Base.Sexp Gql.Lex Model.OpStr Model.Multiline.
+From AC Require Import Base.Strs Base.Sexp Gql.Lex Gql.Block Model.OpStr Model.Multiline.
 Import ListNotations.
 Local Open Scope string_scope.
 
@@ -15,6 +15,7 @@ Definition e_tok (t : tok) : sexp :=
 
 Definition run_c02 (e : sexp) : sexp :=
   match e with
+  | L [A "blockvalue"; A raw] => L (map (fun l => A (l2s l)) (block_value (s2l raw)))
   | L [A "tokens"; A text] => sOpt (fun l => L (map e_tok l)) (tokens (s2l text))
   | L (A "docs" :: _) | L (A "sets" :: _) | L (A "closure" :: _) => run_opstr e
   | _ => run_multiline e
